@@ -344,6 +344,7 @@ const char *g_describe(const void *addr, char *buf, size_t n)
 /* ---------------- signals ---------------- */
 static void dump_stats(void);
 static volatile int mon_in_child; static int mon_child_pipe = -1;
+volatile int mon_child_phase;
 static struct sigaction old_segv, old_bus, old_fpe;
 static void on_fault(int sig, siginfo_t *si, void *ctx)
 {
@@ -374,7 +375,7 @@ static void on_fault(int sig, siginfo_t *si, void *ctx)
                 else snprintf(site, sizeof site, "%.20s+0x%lx", fn, (unsigned long)((char *)bt[i] - (char *)di.dli_fbase));
                 got = 1;
             }
-            char msg[160]; int mn = snprintf(msg, sizeof msg, "%d %d %s\n", sig, (uintptr_t)si->si_addr < 0x10000 ? 1 : 0, site);
+            char msg[160]; int mn = snprintf(msg, sizeof msg, "%d %d %d %s\n", sig, (uintptr_t)si->si_addr < 0x10000 ? 1 : 0, mon_child_phase, site);
             if (mon_child_pipe >= 0) { ssize_t ww = write(mon_child_pipe, msg, (size_t)mn); (void)ww; }
             _exit(199);
         }
@@ -428,9 +429,9 @@ int mon_fork_run(int (*fn)(void *), void *arg, mon_child_t *out)
     buf[n > 0 ? n : 0] = 0; close(pfd[0]);
     int st = 0; while (waitpid(pid, &st, 0) < 0 && errno == EINTR) ;
     if (WIFEXITED(st) && WEXITSTATUS(st) == 199 && n > 0) {
-        out->faulted = 1; int sg = 0, np = 0; char site[96] = "?";
-        sscanf(buf, "%d %d %95s", &sg, &np, site);
-        out->sig = sg; out->nullpage = np; snprintf(out->site, sizeof out->site, "%s", site);
+        out->faulted = 1; int sg = 0, np = 0, ph = 0; char site[96] = "?";
+        sscanf(buf, "%d %d %d %95s", &sg, &np, &ph, site);
+        out->sig = sg; out->nullpage = np; out->phase = ph; snprintf(out->site, sizeof out->site, "%s", site);
         return 0;
     }
     if (WIFSIGNALED(st)) { out->faulted = 1; out->sig = WTERMSIG(st); snprintf(out->site, sizeof out->site, "?"); return 0; }
@@ -451,6 +452,7 @@ void mon_init(int argc, char **argv)
         else if (!strcmp(a, "--only")) { MO.only = atol(v); i++; }
         else if (!strcmp(a, "--prop")) { MO.prop = v; i++; }
         else if (!strcmp(a, "--mode")) { MO.mode = v; i++; }
+        else if (!strcmp(a, "--noise")) { MO.noise = atoi(v); i++; }
         else if (!strcmp(a, "--arg1")) { MO.arg1 = atol(v); i++; }
         else if (!strcmp(a, "--arg2")) { MO.arg2 = atol(v); i++; }
         else if (!strcmp(a, "--dist")) { MO.distpath = v; i++; }
